@@ -365,6 +365,7 @@ impl C16GoalBias {
                     // never satisfied (distance <= -1 is false): the run is ended by the budget
                     radius: -1.0,
                     rng_sampler: false,
+                    half: false,
                 },
                 extra_starts: vec![],
                 no_start: false,
